@@ -11,6 +11,7 @@ import (
 	"sort"
 
 	"github.com/zclconf/go-cty/cty"
+	"github.com/zclconf/go-cty/cty/function/stdlib"
 	"golang.org/x/text/unicode/norm"
 )
 
@@ -353,6 +354,9 @@ func concretizeKnown(ty cty.Type, a J, rep int) cty.Value {
 	case ty.IsObjectType():
 		return cty.ObjectVal(concretizeMap(asJ(a["v"])["m"], rep))
 	case ty.IsCapsuleType():
+		if ty == capsules["bytes"] {
+			return stdlib.BytesVal([]byte(asS(asJ(a["v"])["c"])))
+		}
 		if ty == capsules["c1"] {
 			n := len(asS(asJ(a["v"])["c"]))
 			return cty.CapsuleVal(ty, &n)
